@@ -1,15 +1,15 @@
-SPECIFICATION SpecD
+SPECIFICATION Spec
 CONSTANTS
  Writers = {"w1", "w2"}
  OpsPerWriter = 1
- Readers = {"r"}
+ Readers = {}
  ReaderOps = 1
  Cap = 2
  MaxBatch = 2
  MaxFaults = 0
- MaxToggles = 0
+ MaxToggles = 1
  DoClose = TRUE
  ReleaseThrottle = FALSE
- Deviations = {"DrainChecksQueueLenFirst"}
-INVARIANT Safety
-CHECK_DEADLOCK TRUE
+ Deviations = {}
+PROPERTY EveryCallReturns
+CHECK_DEADLOCK FALSE
